@@ -278,6 +278,11 @@ class Interp:
         if fn == "alloc::vec::Vec::push" and cur.k == "list" and len(args) > 1:
             env[tgt] = Val("list", list(cur.v) + [args[1]])
             return UNIT
+        if fn in ("core::iter::traits::collect::Extend::extend", "alloc::vec::Vec::extend_from_slice") and cur.k == "list" and len(args) > 1 and args[1].deref().k in ("iter", "list"):
+            src = args[1].deref()
+            items = [x.deref() if (fn.endswith("extend_from_slice")) else x for x in src.v]
+            env[tgt] = Val("list", list(cur.v) + items)
+            return UNIT
         if fn == "alloc::vec::Vec::append" and cur.k == "list" and len(args) > 1 and args[1].deref().k == "list":
             env[tgt] = Val("list", list(cur.v) + list(args[1].deref().v))
             return UNIT
@@ -359,6 +364,21 @@ class Interp:
             return NONE_V if m == "find_map" else Val("iter", out)
         if m in ("cloned", "copied"):
             return Val("iter", [x.deref() for x in items])
+        if m in ("flatten", "flat_map"):
+            out = []
+            for x in items:
+                y = (self.call_closure(cs, f, [x]) if m == "flat_map" else x)
+                yd = y.deref()
+                nm = yd.v if yd.k == "variant" else (yd.extra[1] if yd.k == "adt" and yd.extra else None)
+                if yd.k in ("iter", "list"):
+                    out += [Val("ref", z) if (yd.k == "list" and y.k == "ref") else z for z in yd.v]
+                elif nm in ("Some", "Ok"):
+                    out.append(yd.v[0])
+                elif nm in ("None", "Err"):
+                    pass
+                else:
+                    return UNKNOWN
+            return Val("iter", out)
         if m == "rev":
             return Val("iter", items[::-1])
         if m == "chain" and len(d) > 1 and d[1].k in ("iter", "list"):
@@ -404,6 +424,18 @@ class Interp:
             return vstr(s0)
         if m == "strip_prefix" and pv is not None:
             return some(vstr(s0[len(pv):])) if s0.startswith(pv) else NONE_V
+        if m == "replace" and len(d) > 2 and d[2].k in ("str", "char"):
+            pats = None
+            if p.k in ("str", "char"):
+                pats = [p.v]
+            elif p.k == "tuple" and all(x.deref().k == "char" for x in p.v):
+                pats = [x.deref().v for x in p.v]
+            if pats:
+                out = s0
+                for q in pats:
+                    out = out.replace(q, d[2].v)
+                return vstr(out)
+            return None
         if m == "is_empty":
             return vbool(s0 == "")
         if m in ("as_str", "trim") :
@@ -457,6 +489,8 @@ class Interp:
         neg = nm in ("None", "Err")
         if not (pos or neg):
             return None
+        if m in ("iter", "into_iter", "iter_mut") and is_opt:
+            return Val("iter", [Val("ref", payload) if (m != "into_iter" or args[0].k == "ref") else payload] if pos else [])
         if m in ("as_ref", "as_mut", "as_deref", "as_deref_mut", "cloned", "copied", "take"):
             return a if neg else Val("adt", [payload.deref() if m in ("cloned", "copied", "as_deref") else payload], a.extra)
         if m == "or" and is_opt:
